@@ -3,6 +3,7 @@ package main
 import (
 	"fmt"
 	"go/types"
+	"os"
 	"sort"
 	"strings"
 
@@ -45,7 +46,7 @@ func newEval(ctx *Ctx, opaque ...string) *Evaluator {
 	for _, o := range opaque {
 		op[o] = true
 	}
-	return &Evaluator{prog: ctx.Prog, maxDepth: 12, inline: func(fn *ssa.Function) bool {
+	return &Evaluator{c: ctx, unroll: os.Getenv("VERIF_NOUNROLL") == "", prog: ctx.Prog, maxDepth: 12, inline: func(fn *ssa.Function) bool {
 		if !inModule(fn) {
 			return false
 		}
@@ -57,6 +58,28 @@ func newEval(ctx *Ctx, opaque ...string) *Evaluator {
 		}
 		return true
 	}}
+}
+
+// newEvalPkg is newEval, except that functions of the package with the given path suffix are
+// inlined even when they return an SDF (local helpers such as obj.internalThread are part of
+// the entry point being analysed, not operands).
+func newEvalPkg(ctx *Ctx, pkgSuffix string, opaque ...string) *Evaluator {
+	ev := newEval(ctx, opaque...)
+	op := map[string]bool{}
+	for _, o := range opaque {
+		op[o] = true
+	}
+	base := ev.inline
+	ev.inline = func(fn *ssa.Function) bool {
+		if base(fn) {
+			return true
+		}
+		if !inModule(fn) || op[fn.Name()] || op[shortFn(fn)] {
+			return false
+		}
+		return fn.Pkg != nil && strings.HasSuffix(fn.Pkg.Pkg.Path(), pkgSuffix)
+	}
+	return ev
 }
 
 func symArgs(fn *ssa.Function) []Val {
@@ -167,6 +190,9 @@ func leafTerms(prefix string, v Val, out map[string]*Term) {
 
 func cmdShow(args []string) int {
 	repo := "/repo"
+	if r := os.Getenv("VERIF_REPO"); r != "" {
+		repo = r
+	}
 	if len(args) < 2 {
 		fmt.Println("usage: sdfxlint show <pkg> <func> [events] [opaque=a,b]")
 		return 2
